@@ -20,7 +20,10 @@ RULE = ("file graphs: files in.scss, a.scss, b.scss, ... in one directory (plus 
         "@import/@use/@forward/meta.load-css spelled `n`, `./n` or `d/../n`. quick: every graph over 2 files (13^4) and "
         "every 3-file graph with at most 2 edges, + 1500 random 3..6-file graphs; thorough: additionally every 3-file graph "
         "with 3 edges and 20000 random 3..6-file graphs; plus every 2-file graph with at most 2 edges using the spelling "
-        "`d//../n`. non-trivial = at least 2 edges and the specification does not "
+        "`d//../n`; a plain css file `x.css` as load target reached as `x`/`x.css` by every load kind up to three times per "
+        "compilation (3285 exhaustive + 600 random); importers two directory levels deep (in.scss, w/_index.scss, "
+        "w/f/i.scss, w/b.scss) with the spellings `..`, `./..`, `../x`, `./../x`, `x/..`, `.`: every reachable 1- and "
+        "2-edge graph + 2500 random 3..5-edge graphs (cycles through `..` included). non-trivial = at least 2 edges and the specification does not "
         "stop at an unrelated error")
 TRUSTED = ["harness/src/ops/c02.rs (virtual loader, SCSS rendering, divergence guard: a compilation that makes more than "
            "400 loader calls on a graph of at most 7 files is reported as diverging instead of waiting for the real stack "
@@ -66,6 +69,8 @@ def gen(tier, rng, boost=1):
     for edges in all_graphs(2, 2):
         if any(s == 1 for _, _, _, s in edges) and all(s < 2 for _, _, _, s in edges):
             yield graph_case(2, edges, "empty-segment", spell=SPELL_EMPTY)
+    yield from css_target_cases(rng, quick, boost)
+    yield from subdir_cases(rng, quick, boost)
     nrand = (1500 if quick else 20000) * boost
     for _ in range(nrand):
         n = rng.randint(3, 6)
@@ -85,6 +90,82 @@ def gen(tier, rng, boost=1):
             edges.append((i, j, rng.choice(KIND_CODES), rng.choice([0, 0, 1, 2])))
         rng.shuffle(edges)
         yield graph_case(n, edges, "random-acyclic" if acyclic_bias else "random")
+
+
+def css_target_cases(rng, quick, boost):
+    """a plain css file (x.css) as load target, reached as `x` and `x.css`, by every load kind, up to three
+    times in one compilation (from the root and from a file the root loads)"""
+    X = [k + u for k in KIND_CODES for u in ("x", "x.css")]
+    once_twice = [[]] + [[x] for x in X] + [[x, y] for x in X for y in X]
+    for ain in [None] + list(KIND_CODES):
+        for inx in once_twice:
+            for ax in [[]] + [[x] for x in X]:
+                if ain is None and ax:
+                    continue
+                files = [("in.scss", ["m"] + ([ain + "a"] if ain else []) + inx), ("a.scss", ["m"] + ax), ("x.css", ["m"])]
+                yield Case(L.line(files), "css-target", {"edges": len(inx) + len(ax) + (1 if ain else 0)})
+    for _ in range((600 if quick else 6000) * boost):
+        ain = rng.choice(KIND_CODES)
+        inx, ax = rng.choice(once_twice), rng.choice(once_twice)
+        files = [("in.scss", ["m"] + inx + [ain + rng.choice(["a", "./a"])]), ("a.scss", ["m"] + ax), ("x.css", ["m"])]
+        yield Case(L.line(files), "css-target", {"edges": len(inx) + len(ax) + 1})
+
+
+SUB_FILES = {"in": "in.scss", "w": "w/_index.scss", "i": "w/f/i.scss", "b": "w/b.scss"}
+SUB_SPELL = {
+    ("in", "w"): ["w", "w/f/..", "./w"], ("in", "i"): ["w/f/i", "w/./f/i"], ("in", "b"): ["w/b", "w/f/../b"],
+    ("w", "i"): ["f/i", "./f/i"], ("w", "b"): ["b", "f/../b"], ("w", "w"): ["f/..", "../w", "."], ("w", "in"): ["../in"],
+    ("i", "w"): ["..", "./..", "../../w"], ("i", "b"): ["../b", "./../b"], ("i", "i"): ["i", "../f/i"],
+    ("i", "in"): ["../../in"],
+    ("b", "w"): [".", "../w"], ("b", "i"): ["f/i"], ("b", "b"): ["b", "./b"], ("b", "in"): ["../in"],
+}
+SUB_EDGES = [(a, b, u) for (a, b), us in SUB_SPELL.items() for u in us]
+
+
+def subdir_case(edges, stratum):
+    """edges: list of (src, dst, url, kind code) — importers two directory levels deep, `..`, `../x`, `./../x`,
+    `x/..` and `.` spellings"""
+    files = [(SUB_FILES[n], ["m"] + [k + u for (a, _, u, k) in edges if a == n]) for n in ("in", "w", "i", "b")]
+    return Case(L.line(files), stratum, {"edges": len(edges)})
+
+
+def reachable(edges):
+    seen, todo = {"in"}, ["in"]
+    while todo:
+        n = todo.pop()
+        for a, b, _, _ in edges:
+            if a == n and b not in seen:
+                seen.add(b)
+                todo.append(b)
+    return all(a in seen for a, _, _, _ in edges)
+
+
+def subdir_cases(rng, quick, boost):
+    one = [(a, b, u, k) for (a, b, u) in SUB_EDGES for k in KIND_CODES]
+    for e in one:
+        if e[0] == "in":
+            yield subdir_case([e], "subdir")
+    for e1 in one:
+        if e1[0] != "in":
+            continue
+        for e2 in one:
+            if e2[0] in ("in", e1[1]) and (e2[0], e2[1]) != (e1[0], e1[1]) and e1[3] == e2[3] or \
+                    (e2[0] == e1[1] and e2[1] in ("w", "in", e1[1]) and e1[0] != e2[0]):
+                if reachable([e1, e2]):
+                    yield subdir_case([e1, e2], "subdir")
+    for _ in range((2500 if quick else 25000) * boost):
+        n = rng.randint(3, 5)
+        edges, seen = [], set()
+        cur = {"in"}
+        for _ in range(n):
+            cands = [e for e in SUB_EDGES if e[0] in cur and (e[0], e[1]) not in seen]
+            if not cands:
+                break
+            a, b, u = rng.choice(cands)
+            seen.add((a, b))
+            cur.add(b)
+            edges.append((a, b, u, rng.choice(KIND_CODES)))
+        yield subdir_case(edges, "subdir-random")
 
 
 def statement(pc, im):
